@@ -172,6 +172,7 @@ type Frame struct {
 	jointBlk  *ssa.BasicBlock
 	objs     []*types.Var
 	objSeen  map[*types.Var]bool
+	allocOf  map[types.Object]*ssa.Alloc // address-taken source variables and their cells
 }
 
 func (g *Gen) newFrame(fn *ssa.Function, parent *Frame) *Frame {
@@ -779,14 +780,26 @@ func (g *Gen) execFunc(fr *Frame, st *State, guard string) ([]Val, *State, strin
 	order, loops := analyzeCFG(fn)
 	fr.loops = loops
 	g.loopAnchors(fn, loops)
-	if fr.fc != nil {
+	invFC := fr.fc
+	if invFC == nil {
+		// loops inside closures (and inlined helpers) of the function under contract may carry its invariants too
+		top := fr
+		for top.parent != nil {
+			top = top.parent
+		}
+		if top.fc != nil && fr.fn.Parent() != nil {
+			invFC = top.fc
+		}
+	}
+	if invFC != nil {
 		for _, li := range loops {
-			for _, inv := range fr.fc.Invs {
+			for _, inv := range invFC.Invs {
 				if inv.Anchor != "" && strings.Contains(li.anchor, inv.Anchor) {
 					li.invs = append(li.invs, inv)
+					g.seenCall[inv] = true
 				}
 			}
-			for _, d := range fr.fc.Decr {
+			for _, d := range invFC.Decr {
 				if d.Anchor != "" && strings.Contains(li.anchor, d.Anchor) {
 					li.decr = append(li.decr, d)
 				}
@@ -1068,6 +1081,12 @@ func (g *Gen) enterLoop(fr *Frame, li *loopInfo, st *State, r string, order []*s
 			}
 		}
 		v, err := g.evalBool(inv.Expr, env)
+		if os.Getenv("GOVC_DEBUG") != "" {
+			fmt.Fprintf(os.Stderr, "assume inv %s dry=%d: %v %v\n", inv.Name, g.dry, truncate(v, 200), err)
+			for o, sv := range st.src {
+				fmt.Fprintf(os.Stderr, "   src %s addr=%v T=%s ptr=%v cellval=%v\n", o.Name(), st.srcAddr[o], truncate(sv.T, 40), sv.Ptr != nil, func() string { if sv.Ptr != nil { return st.cells[sv.Ptr.Cell].T }; return "" }())
+			}
+		}
 		if err != nil {
 			g.contractError(inv, err)
 			continue
@@ -1287,6 +1306,16 @@ func (fr *Frame) collectObjs() {
 		return
 	}
 	fr.objSeen = map[*types.Var]bool{}
+	fr.allocOf = map[types.Object]*ssa.Alloc{}
+	for _, b := range fr.fn.Blocks {
+		for _, in := range b.Instrs {
+			if d, ok := in.(*ssa.DebugRef); ok && d.IsAddr && d.Object() != nil {
+				if a, ok := d.X.(*ssa.Alloc); ok {
+					fr.allocOf[d.Object()] = a
+				}
+			}
+		}
+	}
 	add := func(o types.Object) {
 		if v, ok := o.(*types.Var); ok && v != nil && !fr.objSeen[v] {
 			fr.objSeen[v] = true
